@@ -111,6 +111,17 @@ class Balance:
             st = state[n.id]
             c = contrib(n)
             outs = frozenset((fa, tuple(x + y for x, y in zip(cn, c))) for fa, cn in st)
+            # a local that is (re)bound: what was known about it is gone; a flag bound to True / False / None is known from here on
+            if n.kind == "stmt" and isinstance(n.ast, (ast.Assign, ast.AugAssign, ast.AnnAssign)):
+                tgs = n.ast.targets if isinstance(n.ast, ast.Assign) else [n.ast.target]
+                names_ = {x.id for t in tgs for x in ast.walk(t) if isinstance(x, ast.Name) and isinstance(x.ctx, ast.Store)}
+                if names_:
+                    pat = re.compile(r"\b(%s)\b" % "|".join(re.escape(x) for x in names_))
+                    gain = frozenset()
+                    if isinstance(n.ast, ast.Assign) and len(tgs) == 1 and isinstance(tgs[0], ast.Name) and isinstance(n.ast.value, ast.Constant) \
+                            and (n.ast.value.value is None or isinstance(n.ast.value.value, bool)):
+                        gain = frozenset(["%s(%s)" % ("truthy" if n.ast.value.value is True else "falsy", tgs[0].id)])
+                    outs = frozenset((frozenset(x for x in fa if not pat.search(x)) | gain, cn) for fa, cn in outs)
             if any(abs(v) > 6 for fa, cn in outs for v in cn):
                 self.problems.append((f, n.ast if n.ast is not None else f.node, "a loop opens or closes a delimiter on every iteration"))
                 self.summary[name] = None
@@ -495,6 +506,60 @@ def _kind_round_trip(P, R, pars, cc, ci):
     R.floor("categories with a reader directive and a writer branch (B5b)", 3)
 
 
+def _open_actuals_stay_open(P, R, pars):
+    R.rule("B9", "open actuals stay open: once the reader has recognised an actual as the `unconn` marker, no statement that joins the pin "
+                 "to a net can run in the same iteration")
+    from ..inline import inlined_view
+    n = 0
+    for f in (g for c in pars.classes.values() for g in c.all_funcs()):
+        tests = [t for t in walk_local(f.node) if isinstance(t, ast.Compare) and len(t.ops) == 1 and isinstance(t.ops[0], (ast.Eq, ast.NotEq, ast.Is, ast.IsNot))
+                 and any(isinstance(x, (ast.Attribute, ast.Name)) and norm(x).split(".")[-1] == "UNCONN" for x in (t.left, t.comparators[0]))]
+        if not tests:
+            continue
+        fv = inlined_view(P, f)
+        cfg = cfg_of(fv.node)
+
+        def joins(node):
+            a = node.ast
+            if a is None or node.kind in ("entry", "exit"):
+                return None
+            exprs, _ = node_exprs(node)
+            for e in exprs:
+                for c in ast.walk(e):
+                    if isinstance(c, ast.Call) and isinstance(c.func, ast.Attribute) and c.func.attr in ("connect_pin_to_wire", "connect_pin"):
+                        return c
+            return None
+        for t in cfg.nodes:
+            if t.kind != "test" or not isinstance(t.ast, (ast.If, ast.While)):
+                continue
+            marker = [c for c in ast.walk(t.ast.test) if isinstance(c, ast.Compare) and len(c.ops) == 1 and isinstance(c.ops[0], (ast.Eq, ast.NotEq, ast.Is, ast.IsNot))
+                      and any(isinstance(x, (ast.Attribute, ast.Name)) and norm(x).split(".")[-1] == "UNCONN" for x in (c.left, c.comparators[0]))]
+            if not marker or marker[0] is not t.ast.test:
+                continue
+            n += 1
+            want = "true" if isinstance(marker[0].ops[0], (ast.Eq, ast.Is)) else "false"
+            loops = [p for p in parent_chain(t.ast) if isinstance(p, (ast.For, ast.While))]
+            seen, todo, hit = set(), [s_ for s_, lab in t.succ if lab == want], None
+            while todo and hit is None:
+                x = todo.pop()
+                if x.id in seen:
+                    continue
+                seen.add(x.id)
+                if x.kind in ("next", "test") and any(x.ast is lp for lp in loops):
+                    continue  # the next element: another actual
+                hit = joins(x)
+                if hit is None:
+                    todo.extend(s_ for s_, lab in x.succ if s_ is not cfg.raise_exit)
+            if hit is not None:
+                R.bad("B9", "%s|open actual joined" % f.key, fv.loc(hit),
+                      "%s can reach `%s` after recognising the actual as the open marker (`%s`): a pin written as unconnected is wired to a net named "
+                      "after the marker, which also shorts all such pins together" % (f.qualname, short(hit, 50), short(marker[0], 40)))
+            else:
+                R.ok("B9", "%s: nothing is joined once `%s` holds" % (f.qualname, short(marker[0], 40)), fv.loc(t.ast))
+    R.count("tests for the open-actual marker in the EBLIF reader (B9)", n)
+    R.floor("tests for the open-actual marker in the EBLIF reader (B9)", 1)
+
+
 def _str_consts(node):
     return [n.value for n in ast.walk(node) if isinstance(n, ast.Constant) and isinstance(n.value, str)]
 
@@ -505,7 +570,7 @@ def _str_consts(node):
           "category the reader assigns has a branch in the writer's compose_instances (otherwise instances vanish on write); B4'' EBLIF.* keys "
           "stored by the reader minus keys read by the writer equals the reviewed table; B1'' every .model written is followed by .end on all "
           "paths; B6 the .conn wire merge iterates over a snapshot of the pin lists it empties; hand-maintained position counters advance once "
-          "per element; B7 a bus grown on demand to hold bit I is then read at bit I; B8 the (name, index) pair a bit of a bus is stored under comes from one parse of one token; B5b per category, the directive the writer emits under the flags it passes is the directive the reader turns into that category.")
+          "per element; B7 a bus grown on demand to hold bit I is then read at bit I; B8 the (name, index) pair a bit of a bus is stored under comes from one parse of one token; B5b per category, the directive the writer emits under the flags it passes is the directive the reader turns into that category; B9 (CFG reachability within one iteration) once an actual is recognised as the `unconn` marker no statement that joins the pin to a net can run.")
 def check_c18(ctx, R):
     P = ctx.P
     R.rule("B2''", "directive agreement")
@@ -570,6 +635,8 @@ def check_c18(ctx, R):
                 R.bad("B5", "branch|%s" % cat, ci.loc(n), "the branch for %s writes %s" % (cat, ", ".join(subs) or "nothing"))
     # B5b: statement kinds survive: the directive a category is written with is the directive the reader turns into that category
     _kind_round_trip(P, R, pars, cc, ci)
+    # B9: an actual recognised as the open marker is joined to nothing
+    _open_actuals_stay_open(P, R, pars)
     # B4''
     stored = set()
     for n in ast.walk(pars.tree):
